@@ -949,6 +949,90 @@ def extras_part(ctx, st):
 
 
 # ------------------------------------------------------------------------------------------------ entry points
+def interleaving_part(ctx, st):
+    """The serializer is a process-wide singleton shared by all branch threads of a map / parallel: two calls that overlap in time
+    must each give the result the model gives for that call alone.  The code has no synchronisation primitive at which a
+    scheduler could preempt it, so the preemption is done at LINE granularity: call A is traced (sys.settrace) and stopped after its
+    k-th line inside serdes.py, call B (same object, an equal object, or another value) runs to completion in a second thread, A
+    resumes - for every k.  Deterministic: the schedule is (value pair, direction, k)."""
+    import threading
+    serdes_file = sd.__file__
+    tz = timezone(timedelta(hours=2))
+    shared = {"a": [1, (2, "t"), {"k": Decimal("1.50")}], "b": (datetime(2024, 5, 6, 7, 8, 9, tzinfo=tz), b"\x00\xff", uuid.UUID(int=7))}
+    other = [(1, 2), {"x": [date(2020, 2, 29), None, True]}, "plain"]
+    batch = BatchResult.from_items([BatchItem(0, BatchItemStatus.SUCCEEDED, result={"v": (1, 2)}),
+                                    BatchItem(1, BatchItemStatus.FAILED, error=ErrorObject("m", "T", None, None))])
+    pairs = [("same object", shared, shared), ("equal objects", shared, eval(to_expr(shared), dict(EVAL_NS))), ("different values", shared, other),
+             ("same batch result", batch, batch)]
+    serdes_obj = sd.ExtendedTypeSerDes()
+
+    def ser(v):
+        return serdes_obj.serialize(v, sd.SerDesContext("op", "arn"))
+
+    def deser(t):
+        return serdes_obj.deserialize(t, sd.SerDesContext("op", "arn"))
+    n = 0
+    for label, va, vb in pairs:
+        ref_a, ref_b = ser(va), ser(vb)
+        for direction, fa, fb, xa, xb, ra, rb in (("serialize/serialize", ser, ser, va, vb, ref_a, ref_b),
+                                                  ("deserialize/deserialize", deser, deser, ref_a, ref_b, typed_repr(va), typed_repr(vb)),
+                                                  ("serialize/deserialize", ser, deser, va, ref_b, ref_a, typed_repr(vb))):
+            k = 0
+            while True:
+                k += 1
+                if k > (60 if ctx.quick else 400):
+                    break
+                state = {"lines": 0, "stopped": False, "res_b": None, "exc_b": None}
+                go_b, b_done = threading.Event(), threading.Event()
+
+                def tracer(frame, event, arg, k=k, state=state, go_b=go_b, b_done=b_done):
+                    if frame.f_code.co_filename != serdes_file:
+                        return None
+                    if event == "line":
+                        state["lines"] += 1
+                        if state["lines"] == k and not state["stopped"]:
+                            state["stopped"] = True
+                            go_b.set()
+                            b_done.wait(10)
+                    return tracer
+
+                def run_b(state=state, go_b=go_b, b_done=b_done, fb=fb, xb=xb):
+                    go_b.wait(10)
+                    try:
+                        state["res_b"] = fb(xb)
+                    except Exception as e:  # noqa: BLE001
+                        state["exc_b"] = e
+                    b_done.set()
+                tb = threading.Thread(target=run_b)
+                tb.start()
+                res_a = exc_a = None
+                sys.settrace(tracer)
+                try:
+                    res_a = fa(xa)
+                except Exception as e:  # noqa: BLE001
+                    exc_a = e
+                finally:
+                    sys.settrace(None)
+                go_b.set()
+                tb.join(10)
+                n += 1
+                ctx.case(("interleave", label, direction, k))
+                norm = lambda r: typed_repr(r) if not isinstance(r, str) or direction.startswith("deser") else r   # noqa: E731
+                got_a = exc_a if exc_a is not None else (norm(res_a) if fa is deser else res_a)
+                got_b = state["exc_b"] if state["exc_b"] is not None else (typed_repr(state["res_b"]) if fb is deser else state["res_b"])
+                if got_a != ra or got_b != rb:
+                    which = "first" if got_a != ra else "second"
+                    bad = got_a if got_a != ra else got_b
+                    report(ctx, st, "concurrent-call-differs",
+                           f"{direction} of {label}: the {which} of two overlapping calls (second call run while the first is stopped after "
+                           f"line {k} of serdes.py) gave {str(bad)[:120]!r} instead of what the call gives alone", va, ref_a,
+                           f"interleave:{label}:{direction}:{k}")
+                    break
+                if not state["stopped"]:
+                    break          # call A has fewer than k lines: every preemption point was tried
+    ctx.notes["interleavings"] = n
+
+
 def run(ctx):
     logging.getLogger(sd.__name__).disabled = True                # serialize()/deserialize() log every failure with a traceback
     ctx.rule = ("model: every value of Val(D) of Codec.tla (abstract grammar: 11 leaf kinds + tag-text strings; list, tuple, "
@@ -972,6 +1056,7 @@ def run(ctx):
     model_part(ctx, st)
     extras_part(ctx, st)
     random_part(ctx, st)
+    interleaving_part(ctx, st)
     ctx.notes["vectors_bound"] = st.vectors
     ctx.notes["vectors_by_model_path"] = st.by_path
     ctx.notes["lookalike_vectors"] = st.look
